@@ -302,6 +302,11 @@ func c08Run(c *rt.Ctx, sub int, x any, t reflect.Type, feat string, interps []c0
 		if cyclic && err == nil {
 			c.Violate(rt.Violation{Monitor: "cycle", Entry: ip.name, Kind: "cycle-not-reported", Ctx: featTag(feat), Detail: fmt.Sprintf("returned %d bytes and no error for a cyclic value | type %s", len(out), t.String()), Input: input, Sub: sub})
 		}
+		if !cyclic && err != nil && strings.Contains(err.Error(), "encountered a cycle") {
+			// every interpreter keeps its own list of what it is inside of: an acyclic value is
+			// not a cycle in any of them (the value was built without one)
+			c.Violate(rt.Violation{Monitor: "cycle", Entry: ip.name, Kind: "acyclic-value-reported-as-cycle", Ctx: featTag(feat), Detail: err.Error() + " | type " + t.String(), Input: input, Sub: sub})
+		}
 		if cyclic && err != nil {
 			c.Obs("cycles_reported_as_error", 1)
 		}
